@@ -30,10 +30,39 @@ Definition Strict (st : db) : Prop := Inv T st /\ hd_block st = hd_header st /\ 
 Lemma num_of_ok : forall x, hdr_ok x -> num_of T (fst x) = hnum x.
 Proof. intros [h b] H. unfold num_of, hnum. cbn in *. unfold CanonicalProofs.hdr_ok in H. cbn in H. now rewrite H. Qed.
 
+(* the domain of the index above k is an initial segment *)
+Definition Closed (c : N -> option N) (k : N) : Prop :=
+  forall a m, k <= a -> a <= m -> c a = None -> c m = None.
+
+Lemma whb_closed : forall fuel st x st', write_head_block fuel st x = Some st' ->
+  (forall k, hnum x < k -> Closed (canon st) k) -> (forall k, hnum x < k -> Closed (canon st') k).
+Proof.
+  intros fuel st x st' H HC k Hk a m Ha Hm Hnone.
+  destruct (whb_spec _ _ _ _ H) as (c1 & Hc & E & _). rewrite E in *.
+  rewrite upd_other in Hnone by lia. rewrite upd_other by lia.
+  unfold whb_clear in Hc. destruct (canon st (hnum x)) as [old|].
+  - destruct (old =? fst x).
+    + inversion Hc; subst. eapply HC; eauto.
+    + apply (del_canon_above _ _ _ _ Hc); [|lia]. intros a' m' Ha' Hm' Hn'. eapply (HC (hnum x + 1)); eauto. lia.
+  - inversion Hc; subst. eapply HC; eauto.
+Qed.
+
+Lemma fold_whb_closed : forall fuel l p c0 st st', down T p l c0 ->
+  fold_whb fuel (rev l) st = Some st' ->
+  (forall k, hnum c0 < k -> Closed (canon st) k) -> (forall k, hnum p < k -> Closed (canon st') k).
+Proof.
+  intros fuel l p c0 st st' Hd. revert st'. induction Hd; intros st' HF HC.
+  - inversion HF; subst; auto.
+  - cbn [rev] in HF. rewrite fold_whb_snoc in HF.
+    destruct (fold_whb fuel (rev l) st) as [s|] eqn:E; [|discriminate].
+    eapply whb_closed; eauto. intros k Hk. apply (IHHd s eq_refl HC).
+    destruct H0 as (_ & _ & ?). lia.
+Qed.
+
 (* reorg: besides rebuilding the index below the new head's parent, nothing is left above it *)
 Lemma reorg_GC_top : forall fuel st old new st' evs,
   reorg T fuel st old new = Ok (st', evs) -> hdr_ok old -> hdr_ok new -> GC (canon st) old ->
-  (forall n, hnum old < n -> canon st n = None) ->
+  (forall k, Closed (canon st) k) ->
   exists p, GC (canon st') p /\ hdr_ok p /\ (p = new \/ parent_of T new p) /\
             (forall n, hnum p < n -> canon st' n = None).
 Proof.
@@ -43,30 +72,24 @@ Proof.
   destruct (reorg_walk T fuel st old new) as [[[c oc] nc]|] eqn:EW; [|discriminate].
   destruct (reorg_walk_spec T _ _ _ _ _ _ _ EW Ho Hn) as (Hdo & Hdn & Hc).
   cbv zeta in H.
-  set (nb := rev (tl nc)) in *.
-  set (st1 := fold_left write_head_block nb st) in *.
+  destruct (fold_whb fuel (rev (tl nc)) st) as [st1|] eqn:EF; [|discriminate].
   match type of H with context [del_canon_from fuel ?cc ?ii] =>
     destruct (del_canon_from fuel cc ii) as [c'|] eqn:ED; [|discriminate] end.
   destruct (reorg_top_spec T _ _ _ Hdn Hn) as (Hp & Hcase & Hdp).
   assert (Hnum : (match nc with _ :: x1 :: _ => hnum x1 | _ => hnum c end) = hnum (reorg_top c nc))
     by (unfold reorg_top; destruct nc as [|? [|? ?]]; reflexivity).
   rewrite Hnum in ED.
-  assert (Hsame : forall n, hnum (reorg_top c nc) < n -> canon st1 n = canon st n).
-  { intros n Hlt. subst st1 nb. apply fold_whb_canon_other. intros z Hz. apply in_rev in Hz.
-    pose proof (down_in_hnum T _ _ _ Hdp z Hz). lia. }
   assert (G1 : GC (canon st1) (reorg_top c nc)).
-  { subst st1 nb. eapply fold_whb_GC; eauto.
+  { eapply fold_whb_GC; eauto.
     intros n Hle. rewrite HG by (apply down_hnum in Hdo; lia). eapply down_anc; eauto. }
+  pose proof (fold_whb_closed _ _ _ _ _ _ Hdp EF (fun k _ => HT k)) as HC1.
   inversion H; subst st' evs; clear H.
   exists (reorg_top c nc). repeat split; auto.
   - intros n Hle. cbn [canon set_canon]. rewrite (del_canon_below _ _ _ _ ED n) by lia. now apply G1.
   - intros n Hlt. cbn [canon set_canon].
     apply (del_canon_above _ _ _ _ ED); [|lia].
     intros a m Ha Hle Hnone. cbn [canon set_lookup] in *.
-    rewrite Hsame in Hnone by lia. rewrite Hsame by lia.
-    destruct (N.le_gt_cases a (hnum old)) as [Hle'|Hgt].
-    + exfalso. rewrite HG in Hnone by auto. revert Hnone. eapply anc_some; eauto.
-    + apply HT. lia.
+    apply (HC1 (hnum (reorg_top c nc) + 1) ltac:(lia) a m); auto.
 Qed.
 
 Lemma Strict_core : forall st st', canon st' = canon st -> hd_header st' = hd_header st ->
@@ -78,6 +101,15 @@ Proof.
   - intros n Hn. rewrite E1. apply HT. rewrite E2 in Hn. exact Hn.
 Qed.
 
+Lemma GC_closed : forall c x, hdr_ok x -> GC c x -> (forall n, hnum x < n -> c n = None) ->
+  forall k, Closed c k.
+Proof.
+  intros c x Hx HG HN k a m Ha Hm Hnone.
+  destruct (N.le_gt_cases a (hnum x)) as [Hle|Hgt].
+  - exfalso. rewrite HG in Hnone by auto. revert Hnone. eapply anc_some; eauto.
+  - apply HN. lia.
+Qed.
+
 Lemma Strict_wkb : forall fuel st x st' ev, Strict st -> hdr_ok x -> is_known st (fst x) = true ->
   write_known_block T fuel st x = Ok (st', ev) -> Strict st'.
 Proof.
@@ -86,22 +118,26 @@ Proof.
   unfold write_known_block, reorg_if_needed in H.
   destruct (Inv_cur T Hwf st HI) as (cb & Hcur & Hcok & HGc).
   assert (Hnumh : num_of T (hd_header st) = hnum (hd_block st, cb)) by (rewrite <- HE; apply (num_of_ok (hd_block st, cb)); auto).
+  assert (HTc : forall n, hnum (hd_block st, cb) < n -> canon st n = None) by (intros n Hn; apply HT; now rewrite Hnumh).
   destruct (N.eqb_spec (b_parent (snd x)) (hd_block st)) as [E|E].
-  - inversion H; subst. repeat split; auto. intros n Hn. cbn [write_head_block canon hd_header] in *.
-    rewrite (num_of_ok x Hx) in Hn. rewrite upd_other by lia. apply HT. rewrite Hnumh.
-    destruct (wf_parent T Hwf x Hx) as [E0|(p & Hpo & _ & Hnum)].
-    + exfalso. pose proof (wf_zero T Hwf x Hx E0) as Ef. destruct x as [h b]. cbn [fst snd] in *. subst h.
-      unfold CanonicalProofs.hdr_ok in Hx, Hcok. cbn in Hx, Hcok.
-      pose proof (Hgp _ Hx) as Hnone. rewrite E in Hnone. congruence.
-    + unfold CanonicalProofs.hdr_ok in Hpo, Hcok. cbn [fst snd] in *. rewrite E in Hpo. rewrite Hpo in Hcok.
-      inversion Hcok; subst. unfold hnum in *. cbn [snd] in *. lia.
+  - assert (Hh : hnum (hd_block st, cb) < hnum x).
+    { destruct (wf_parent T Hwf x Hx) as [E0|(p & Hpo & _ & Hnum)].
+      + exfalso. pose proof (wf_zero T Hwf x Hx E0) as Ef. destruct x as [h b]. cbn [fst snd] in *. subst h.
+        unfold CanonicalProofs.hdr_ok in Hx, Hcok. cbn in Hx, Hcok.
+        pose proof (Hgp _ Hx) as Hnone. rewrite E in Hnone. congruence.
+      + unfold CanonicalProofs.hdr_ok in Hpo, Hcok. cbn [fst snd] in *. rewrite E in Hpo. rewrite Hpo in Hcok.
+        inversion Hcok; subst. unfold hnum in *. cbn [snd] in *. lia. }
+    destruct (write_head_block fuel st x) as [st2|] eqn:EW; [|discriminate]. inversion H; subst.
+    destruct (whb_spec _ _ _ _ EW) as (_ & _ & _ & _ & Eb & Eh & _).
+    repeat split; auto; [congruence|]. intros n Hn. rewrite Eh, (num_of_ok x Hx) in Hn.
+    eapply whb_none; eauto; [|lia]. apply HTc. lia.
   - rewrite Hcur in H.
     destruct (reorg T fuel st (hd_block st, cb) x) as [[st1 ev1]|] eqn:ER; [|discriminate].
-    inversion H; subst.
-    destruct (reorg_GC_top _ _ _ _ _ _ ER Hcok Hx HGc) as (p & _ & Hpo & Hcase & Habove).
-    { intros n Hn. apply HT. now rewrite Hnumh. }
-    repeat split; auto. intros n Hn. cbn [write_head_block canon hd_header] in *.
-    rewrite (num_of_ok x Hx) in Hn. rewrite upd_other by lia. apply Habove.
+    destruct (write_head_block fuel st1 x) as [st2|] eqn:EW; [|discriminate]. inversion H; subst.
+    destruct (reorg_GC_top _ _ _ _ _ _ ER Hcok Hx HGc (GC_closed _ _ Hcok HGc HTc)) as (p & _ & Hpo & Hcase & Habove).
+    destruct (whb_spec _ _ _ _ EW) as (_ & _ & _ & _ & Eb & Eh & _).
+    repeat split; auto; [congruence|]. intros n Hn. rewrite Eh, (num_of_ok x Hx) in Hn.
+    eapply whb_none; eauto; [|lia]. apply Habove.
     destruct Hcase as [->|(_ & _ & Hnum)]; lia.
 Qed.
 
@@ -183,24 +219,6 @@ Proof.
     eapply find_common_known; eauto.
 Qed.
 
-Lemma fold_whb_canon_cases : forall l st n h, canon (fold_left write_head_block l st) n = Some h ->
-  canon st n = Some h \/ exists z, In z l /\ fst z = h.
-Proof.
-  induction l as [|a l IH]; intros st n h H; cbn in *; auto.
-  destruct (IH _ _ _ H) as [H1|(z & Hz & E)].
-  - cbn in H1. unfold upd in H1. destruct (n =? hnum a); auto.
-    inversion H1; subst. right. exists a. auto.
-  - right. exists z. auto.
-Qed.
-
-Lemma del_canon_sub : forall fuel c i c', del_canon_from fuel c i = Some c' ->
-  forall n h, c' n = Some h -> c n = Some h.
-Proof.
-  induction fuel as [|f IH]; intros c i c' H n h Hn; [discriminate|].
-  cbn in H. destruct (c i) eqn:E; [|inversion H; subst; auto].
-  specialize (IH _ _ _ H n h Hn). unfold upd in IH. destruct (n =? i); [discriminate|auto].
-Qed.
-
 Lemma reorg_Kc : forall fuel st old new st' evs,
   reorg T fuel st old new = Ok (st', evs) -> K st new -> Kc st -> Kc st'.
 Proof.
@@ -208,12 +226,13 @@ Proof.
   rewrite reorg_unfold in H.
   destruct (reorg_walk T fuel st old new) as [[[c oc] nc]|] eqn:EW; [|discriminate].
   cbv zeta in H.
+  destruct (fold_whb fuel (rev (tl nc)) st) as [st1|] eqn:EF; [|discriminate].
   match type of H with context [del_canon_from fuel ?cc ?ii] =>
     destruct (del_canon_from fuel cc ii) as [c'|] eqn:ED; [|discriminate] end.
   inversion H; subst st' evs; clear H.
   intros n h Hc. unfold is_known. rewrite Ek. cbn [canon set_canon] in Hc.
   apply (del_canon_sub _ _ _ _ ED) in Hc. cbn [canon set_lookup] in Hc.
-  apply fold_whb_canon_cases in Hc as [Hc|(z & Hz & <-)].
+  apply (fold_whb_sub _ _ _ _ _ _ EF) in Hc as [Hc|(z & Hz & <-)].
   - exact (HK n h Hc).
   - apply in_rev in Hz. refine (reorg_walk_known _ _ _ _ _ _ _ EW Hn z _).
     destruct nc; [destruct Hz | now right].
@@ -242,17 +261,18 @@ Lemma Strict2_wkb : forall fuel st x st' ev, Strict2 st -> hdr_ok x -> is_known 
   write_known_block T fuel st x = Ok (st', ev) -> Strict2 st'.
 Proof.
   intros fuel st x st' ev (HS & HK) Hx Hkx H. split; [eapply Strict_wkb; eauto|].
-  pose proof (wkb_known T _ _ _ _ _ H) as Ek.
   unfold write_known_block, reorg_if_needed in H.
-  assert (W : forall s, Kc s -> known s = known st -> Kc (write_head_block s x)).
-  { intros s Hs Es n h Hc. unfold is_known. cbn [write_head_block known canon] in *. rewrite Es.
-    unfold upd in Hc. destruct (n =? hnum x); [inversion Hc; subst; exact Hkx|].
-    specialize (Hs n h Hc). unfold is_known in Hs. now rewrite Es in Hs. }
+  assert (W : forall s s', Kc s -> known s = known st -> write_head_block fuel s x = Some s' -> Kc s').
+  { intros s s' Hs Es HW n h Hc. destruct (whb_spec _ _ _ _ HW) as (_ & _ & _ & (Ek & _) & _).
+    unfold is_known. rewrite Ek, Es.
+    destruct (whb_sub _ _ _ _ HW n h Hc) as [[_ ->]|Hc']; [exact Hkx|].
+    specialize (Hs n h Hc'). unfold is_known in Hs. now rewrite Es in Hs. }
   destruct (b_parent (snd x) =? hd_block st).
-  - inversion H; subst. now apply W.
+  - destruct (write_head_block fuel st x) as [st2|] eqn:EW; [|discriminate]. inversion H; subst. apply (W st st' HK eq_refl EW).
   - destruct (cur_hdr T st) as [cur|]; [|discriminate].
     destruct (reorg T fuel st cur x) as [[st1 ev1]|] eqn:ER; [|discriminate].
-    inversion H; subst. apply W; [eapply reorg_Kc; eauto | apply (reorg_frame T _ _ _ _ _ _ ER)].
+    destruct (write_head_block fuel st1 x) as [st2|] eqn:EW; [|discriminate]. inversion H; subst.
+    apply (W st1 st' (reorg_Kc _ _ _ _ _ _ ER Hkx HK) (proj1 (reorg_frame T _ _ _ _ _ _ ER)) EW).
 Qed.
 
 Lemma step_import_strict2 : forall fuel st o st' ev e, import_op o ->
